@@ -346,11 +346,94 @@ func ExpandFirst(p *core.Prog, r *core.Report) {
 				r.OK(rule, key, p.Pos(c.Pos()), "dominated by a successful spec.ExpandSchema of the same object")
 				return
 			}
+			// (4) guarded by a resolvability predicate applied to the same schema (or to the schema this local copy was taken from)
+			for _, cd := range core.CondsAt(c.Block()) {
+				gc, isC := cd.Value.(*ssa.Call)
+				if !isC || !cd.Sense {
+					continue
+				}
+				h := core.StaticCallee(gc)
+				if h == nil || !resolvabilityPredicate(h) || len(gc.Call.Args) == 0 {
+					continue
+				}
+				probed := gc.Call.Args[len(gc.Call.Args)-1]
+				same := probed == arg
+				if al, isAl := arg.(*ssa.Alloc); isAl {
+					for _, ref := range core.Refs(al) {
+						if st, isSt := ref.(*ssa.Store); isSt && st.Addr == ssa.Value(al) {
+							if ld, isLd := st.Val.(*ssa.UnOp); isLd && ld.X == probed {
+								same = true
+							}
+						}
+					}
+				}
+				if same {
+					r.OK(rule, key, p.Pos(c.Pos()), "guarded by "+core.FuncName(h)+": either every reference of the document resolves, or a clone of this very schema was expanded without error")
+					return
+				}
+			}
 			r.Bad(rule, key, p.Pos(c.Pos()), "a schema taken from the validated document is handed to newSchemaValidator, which panics when a $ref in it (or, lazily, below it) cannot be resolved; nothing on this path established that its references resolve (reachable with continue-on-errors after the references rule failed)")
 		})
 	}
 	r.Count("spec_schema_validator_sites", n)
 	r.Floor("spec_schema_validator_sites", 5)
+}
+
+// resolvabilityPredicate: a boolean function of one schema that answers true only when the validator holds a
+// fully expanded copy of the document (all references resolve) or when spec.ExpandSchema of a clone of its
+// argument returned no error.
+func resolvabilityPredicate(h *ssa.Function) bool {
+	if len(h.Blocks) == 0 || h.Signature.Results().Len() != 1 {
+		return false
+	}
+	if b, ok := h.Signature.Results().At(0).Type().Underlying().(*types.Basic); !ok || b.Kind() != types.Bool {
+		return false
+	}
+	var expand *ssa.Call
+	core.EachInstr(h, func(i ssa.Instruction) {
+		if c, ok := i.(*ssa.Call); ok {
+			if g := core.StaticCallee(c); g != nil && core.QualName(g) == "spec.ExpandSchema" {
+				expand = c
+			}
+		}
+	})
+	if expand == nil {
+		return false
+	}
+	// the expanded object is a local clone
+	if _, isLocal := expand.Call.Args[0].(*ssa.Alloc); !isLocal {
+		return false
+	}
+	for _, b := range h.Blocks {
+		ret, ok := b.Instrs[len(b.Instrs)-1].(*ssa.Return)
+		if !ok {
+			continue
+		}
+		switch v := ret.Results[0].(type) {
+		case *ssa.Const:
+			if v.Value != nil && v.Value.ExactString() == "true" {
+				okGuard := false
+				for _, cd := range core.CondsAt(b) {
+					if bo, ok := cd.Value.(*ssa.BinOp); ok && core.IsNilConst(bo.Y) {
+						nonNil := (bo.Op == token.NEQ && cd.Sense) || (bo.Op == token.EQL && !cd.Sense)
+						if pth, ok := core.StablePath(bo.X); ok && nonNil && strings.HasSuffix(pth, ".expanded") {
+							okGuard = true
+						}
+					}
+				}
+				if !okGuard {
+					return false
+				}
+			}
+		case *ssa.BinOp:
+			if !(v.Op == token.EQL && v.X == ssa.Value(expand) && core.IsNilConst(v.Y)) {
+				return false
+			}
+		default:
+			return false
+		}
+	}
+	return true
 }
 
 // holdsInterface: values of this type are compared through interface equality somewhere inside.
